@@ -77,7 +77,7 @@ func (c c05Case) data() []byte {
 // below c05PerByte*len(frame) + c05FixedCap.
 //
 // Calibration on the unchanged tree (see TestVerif_C05Calibrate, run with
-// VERIF_C05_CALIBRATE=1): the largest observed (allocated - 64*len) over 400k generated
+// VERIF_C05_CALIBRATE=1): the largest observed (allocated - 64*len) over 80k generated
 // cases, excluding the TagsUpdate finding, was about 3.3 MiB (a failed
 // CustomReportDetails / property-list / string-array pre-allocation of 32768 elements
 // plus the 256 KiB string buffer). The fixed term is that maximum with 10x head-room.
@@ -176,7 +176,10 @@ func c05EffectiveRegistry(c c05Case) *state.ProtocolRegistry {
 // the command tree builder) are decoded in a child process, so that the verdict is an
 // ordinary violation and the search survives it.
 func c05Risky(c c05Case, typ string) bool {
-	if typ == "packet.AvailableCommands" && c.Kind != "valid" {
+	// AvailableCommands: unbounded recursion on cyclic child lists (fatal stack overflow);
+	// TagsUpdate: make(map, n) with n from the wire (fatal out-of-memory; the scaled-down
+	// twin only helps when its byte scan happens to align with the count field)
+	if (typ == "packet.AvailableCommands" || typ == "config.TagsUpdate") && c.Kind != "valid" {
 		return true
 	}
 	// nesting deep enough to approach the runtime's stack limit
@@ -553,7 +556,18 @@ func c05Run(c c05Case) verifkit.Result {
 	} else if int(er.Protocol) != c.Proto {
 		labels = append(labels, "protocol-fallback")
 	}
+	isolated := false
+	if er := c05EffectiveRegistry(c); er != nil {
+		if t, ok := er.PacketIDs[proto.PacketID(c.ID)]; ok && c05Risky(c, t.String()) {
+			labels = append(labels, "isolated-child-process")
+			// the twins exist to keep allocations judgeable; the command tree hazard is recursion
+			isolated = t.String() == "packet.AvailableCommands"
+		}
+	}
 	for _, scaled := range []uint32{1 << 20, 1 << 24} {
+		if isolated {
+			break
+		}
 		if tw, ok := c05Twin(data, scaled); ok {
 			labels = append(labels, fmt.Sprintf("twin-first:2^%d", map[uint32]int{1 << 20: 20, 1 << 24: 24}[scaled]))
 			o := c05Exec(c, tw)
@@ -760,14 +774,17 @@ func TestVerif_C05(t *testing.T) {
 	// Hypothesis 21: public API order (state first, then the protocol) for every state,
 	// direction and protocol number incl. unknown ones. The proxy itself never calls in
 	// this order. Small deterministic enumeration.
-	const apiRule = "enumeration: Decoder.SetState(s) followed by SetProtocol(p) for all 5 states x 2 directions x every known and several unknown protocol numbers x ids {0,0x11,300} x payload {empty, 1 byte}; same oracle"
+	const apiRule = "enumeration: Decoder.SetState(s) followed by SetProtocol(p) for all 5 states x 2 directions x every 6th known and 9 unknown protocol numbers x ids {0,0x11,300} x payload {empty, 1 byte}; same oracle"
 	if os.Getenv("VERIF_REPLAY") != "" {
 		verifkit.Check(t, "C05", "api-order", apiRule, func(rt *rapid.T) c05Case { return c05Case{} }, c05Run)
 		return
 	}
 	for st := 0; st < 5; st++ {
 		for dir := 0; dir < 2; dir++ {
-			for _, pr := range c05Protocols {
+			for pi, pr := range c05Protocols {
+				if pi%6 != 0 && pi < len(c05Protocols)-9 {
+					continue // every 6th known protocol, all unknown ones
+				}
 				for _, id := range []int{0, 0x11, 300} {
 					for _, head := range [][]byte{nil, {1}} {
 						verifkit.CheckCase(t, "C05", "api-order", apiRule, c05Case{Kind: "api-order", Order: "api", State: st, Dir: dir, Proto: pr, ID: id, Head: head}, c05Run)
